@@ -96,6 +96,14 @@ def scenario(seed, sid, n_steps=30, p_fault=0.35, restart=False, async_p=0.15, t
             steps.append({"op": "close", "mid": "1.1"})      # streams repeat CLOSED books
         if rnd.random() < 0.3:
             steps += [{"op": "book", "mid": "1.1", "k": 99}, {"op": "close", "mid": "1.1"}]   # data again, then closed again
+        if rnd.random() < 0.6:
+            # the hour rule: time passes, the market re-opens and closes again, a second market closes later
+            steps += [{"op": "advance", "seconds": rnd.choice([600, 3000, 3500, 3700, 5000])}]
+            if rnd.random() < 0.6:
+                steps += [{"op": "book", "mid": "1.1", "k": 98}, {"op": "advance", "seconds": rnd.choice([60, 1200, 3000])}, {"op": "close", "mid": "1.1"}]
+            steps += [{"op": "book", "mid": "1.2", "k": 1}, {"op": "close", "mid": "1.2"}]
+            if rnd.random() < 0.7:
+                steps += [{"op": "advance", "seconds": rnd.choice([1000, 3800, 4000])}, {"op": "book", "mid": "1.2", "k": 2}, {"op": "close", "mid": "1.2"}]
     if restart:
         steps.append({"op": "restart"})
     return {"id": sid, "strategies": [{"name": nm} for nm in names], "steps": steps, "seed": seed}
